@@ -304,8 +304,14 @@ def rules_c20(ctx):
         Z = lambda n: ('field', n, THIS)
         obs += check('G8:zmin>zmax', f, 'invalid_argument', lambda t, fn: _is(t, '>', Z('zmin'), Z('zmax')) or _is(t, '<', Z('zmax'), Z('zmin')), eff,
                      'a box with min > max is rejected with std::invalid_argument', 'the index is searched')
-    inner = 'pgm::MultidimensionalPGMIndex::MultidimensionalPGMIndex::(lambda)::operator()::(lambda)::operator()'
-    for f in ctx.need(inner, U):
+    # the closure that tests the coordinates: a closure anywhere under the range constructor that throws (the point loop may be a
+    # std::for_each closure or a plain loop in the constructor body)
+    CT = 'pgm::MultidimensionalPGMIndex::MultidimensionalPGMIndex'
+    inner_fns = [f for u_ in U for f in u_.functions.values() if f.tname.startswith(CT + '::(lambda)') and f.name == 'operator()' and
+                 any(f.n(i)['c'] == 'CXXThrowExpr' for i in f.all_ids())]
+    if not inner_fns:
+        raise AnalysisBroken('G8: no closure under the MultidimensionalPGMIndex range constructor throws (anchor vanished)')
+    for f in inner_fns:
         def cond8(t, fn):
             atoms = []
 
@@ -327,8 +333,11 @@ def rules_c20(ctx):
                            and any(s[0] == 'param' for s in subterms(a[2]))]
             return len(width_tests) == len(atoms) == len(fn.params)
         obs += check('G8:coordinate-width', f, 'runtime_error', cond8, [], 'a coordinate too wide for the encoder is rejected (every coordinate tested)', 'it is encoded')
-    outer = 'pgm::MultidimensionalPGMIndex::MultidimensionalPGMIndex::(lambda)::operator()'
-    for f in ctx.need(outer, U):
+    outer_fns = [f for u_ in U for f in u_.functions.values() if (f.tname == CT or (f.tname.startswith(CT + '::(lambda)') and f.name == 'operator()')) and f.cfg and
+                 f.calls(pred=lambda nd: nd.get('cn') == 'apply') and f.calls_to('pgm::MultidimensionalPGMIndex::encode')]
+    if not outer_fns:
+        raise AnalysisBroken('G8: no function under the MultidimensionalPGMIndex range constructor both checks and encodes a point (anchor vanished)')
+    for f in outer_fns:
         g = graph(f)
         ap = [c for c in f.calls(pred=lambda nd: nd.get('cn') == 'apply')]
         enc = f.calls_to('pgm::MultidimensionalPGMIndex::encode')
@@ -409,6 +418,18 @@ def rules_c20(ctx):
             n11 += 1
             news = [i for i in f.all_ids() if f.n(i)['c'] == 'CXXNewExpr']
             tries = [i for i in f.all_ids() if f.n(i)['c'] == 'CXXTryStmt']
+            f0 = f
+            if not news and not tries:
+                # the allocation may live in a file-local helper the create function returns the result of
+                # (`return new_or_null<T>(a, n, epsilon);`): check the helper's body instead
+                rets0 = [r for r in f.returns() if f.n(r)['ch']]
+                if len(rets0) == 1:
+                    cnode = f.strip(f.n(rets0[0])['ch'][0], casts=True)
+                    callee = f.unit.functions.get(f.n(cnode).get('cd')) if f.n(cnode)['c'] == 'CallExpr' else None
+                    if callee is not None and callee.file.endswith('cpgm.cpp'):
+                        f = callee
+                        news = [i for i in f.all_ids() if f.n(i)['c'] == 'CXXNewExpr']
+                        tries = [i for i in f.all_ids() if f.n(i)['c'] == 'CXXTryStmt']
             ok = False
             why = 'no try/catch around the construction'
             for t in tries:
@@ -424,7 +445,9 @@ def rules_c20(ctx):
                         hok = True
                 ok = inside and hok
                 why = f"new inside try: {inside}; handler catches invalid_argument and returns nullptr: {hok}"
-            obs.append(Ob('GUARD-DOM', f, news[0] if news else 0, 'std::invalid_argument from the constructor becomes a NULL result', why, OK if ok else VIOLATED, arm='G11:c-create'))
+            obs.append(Ob('GUARD-DOM', f, news[0] if news else 0, 'std::invalid_argument from the constructor becomes a NULL result', why + ('' if f is f0 else f" (in helper {f.name} called by {f0.name})"),
+                          OK if ok else VIOLATED, arm='G11:c-create'))
+            f = f0
         if n11 < 8:
             raise AnalysisBroken(f"only {n11} extern C *_create functions found")
     # G12: insert_or_assign: the throwing Item construction is an argument of insert(), hence sequenced before any write
